@@ -2,6 +2,8 @@ package server
 
 import (
 	"io"
+	"net"
+	"time"
 	"log/slog"
 	"net/netip"
 
@@ -28,4 +30,101 @@ func vAddr4(a, b, c, d byte) netip.Addr { return netip.AddrFrom4([4]byte{a, b, c
 func vPrefix4(a, b, c, d byte, bits int) *bgp.IPAddrPrefix {
 	n, _ := bgp.NewIPAddrPrefix(netip.PrefixFrom(vAddr4(a, b, c, d), bits))
 	return n
+}
+
+// vConn is the transport of a harness: reads come from a fixed byte string (then io.EOF, or block
+// for ever when blockAtEOF is set), writes are recorded.
+type vConn struct {
+	in         []byte
+	pos        int
+	out        []byte
+	closed     bool
+	blockAtEOF bool
+	never      chan struct{}
+}
+
+func (c *vConn) Read(b []byte) (int, error) {
+	if c.pos >= len(c.in) {
+		if c.blockAtEOF && !c.closed {
+			<-c.never
+		}
+		return 0, io.EOF
+	}
+	n := copy(b, c.in[c.pos:])
+	c.pos += n
+	return n, nil
+}
+func (c *vConn) Write(b []byte) (int, error) {
+	if c.closed {
+		return 0, io.ErrClosedPipe
+	}
+	c.out = append(c.out, b...)
+	return len(b), nil
+}
+func (c *vConn) Close() error                     { c.closed = true; return nil }
+func (c *vConn) LocalAddr() net.Addr              { return &net.TCPAddr{IP: net.IPv4(10, 0, 0, 1), Port: 179} }
+func (c *vConn) RemoteAddr() net.Addr             { return &net.TCPAddr{IP: net.IPv4(10, 0, 0, 2), Port: 30000} }
+func (c *vConn) SetDeadline(time.Time) error      { return nil }
+func (c *vConn) SetReadDeadline(time.Time) error  { return nil }
+func (c *vConn) SetWriteDeadline(time.Time) error { return nil }
+
+// vServer builds a BgpServer with the real constructor (no gRPC listener, no Serve loop) and gives
+// it the tables StartBgp would create. The management goroutine is not running: harnesses call the
+// step functions (handleFSMMessage, propagateUpdate, ...) themselves.
+func vServer(as uint32, families []bgp.Family) *BgpServer {
+	s := NewBgpServer()
+	s.bgpConfig.Global.Config.As = as
+	s.bgpConfig.Global.Config.RouterId = vAddr4(1, 1, 1, 1)
+	s.globalRib = table.NewTableManager(s.logger, families)
+	s.rsRib = table.NewTableManager(s.logger, families)
+	if err := s.policy.Initialize(); err != nil {
+		panic(err)
+	}
+	return s
+}
+
+// vNeighbor: configuration of a neighbour 10.0.0.<n> in AS peerAS with the given families.
+func vNeighbor(n byte, peerAS, localAS uint32, families []bgp.Family) *oc.Neighbor {
+	c := &oc.Neighbor{}
+	c.Config.NeighborAddress = vAddr4(10, 0, 0, n)
+	c.State.NeighborAddress = c.Config.NeighborAddress
+	c.Config.PeerAs, c.State.PeerAs = peerAS, peerAS
+	c.Config.LocalAs = localAS
+	if peerAS == localAS {
+		c.Config.PeerType, c.State.PeerType = oc.PEER_TYPE_INTERNAL, oc.PEER_TYPE_INTERNAL
+	} else {
+		c.Config.PeerType, c.State.PeerType = oc.PEER_TYPE_EXTERNAL, oc.PEER_TYPE_EXTERNAL
+	}
+	for _, f := range families {
+		a := oc.AfiSafi{}
+		a.Config.AfiSafiName = oc.AfiSafiType(f.String())
+		a.Config.Enabled = true
+		a.State.Family = f
+		c.AfiSafis = append(c.AfiSafis, a)
+	}
+	return c
+}
+
+// vEstablished adds the neighbour to the server as an established session.
+func vEstablished(s *BgpServer, c *oc.Neighbor, families []bgp.Family) *peer {
+	p := newPeer(&s.bgpConfig.Global, c, bgp.BGP_FSM_ESTABLISHED, s.globalRib, s.policy, s.logger)
+	fm := map[bgp.Family]bgp.BGPAddPathMode{}
+	for _, f := range families {
+		fm[f] = bgp.BGP_ADD_PATH_NONE
+	}
+	p.fsm.familyMap.Store(fm)
+	p.fsm.isEBGP = c.Config.PeerAs != c.Config.LocalAs
+	p.peerInfo.Store(&table.PeerInfo{AS: c.Config.PeerAs, LocalAS: c.Config.LocalAs, ID: vAddr4(2, 2, 2, byte(c.Config.PeerAs)), Address: c.State.NeighborAddress, LocalID: vAddr4(1, 1, 1, 1)})
+	s.neighborMap[c.State.NeighborAddress] = p
+	return p
+}
+
+func vUpdate4(prefix *bgp.IPAddrPrefix, withdraw bool, aspath []uint32, nh netip.Addr) *bgp.BGPMessage {
+	if withdraw {
+		return bgp.NewBGPUpdateMessage([]bgp.PathNLRI{{NLRI: prefix}}, nil, nil)
+	}
+	n, _ := bgp.NewPathAttributeNextHop(nh)
+	attrs := []bgp.PathAttributeInterface{bgp.NewPathAttributeOrigin(0),
+		bgp.NewPathAttributeAsPath([]bgp.AsPathParamInterface{bgp.NewAs4PathParam(bgp.BGP_ASPATH_ATTR_TYPE_SEQ, aspath)}), n}
+	return bgp.NewBGPUpdateMessage(nil, attrs, []bgp.PathNLRI{{NLRI: prefix}})
 }
